@@ -3,11 +3,13 @@
     control behaviour of tracks (volumes, fades, pause state, route volumes, spatialisation) and
     the output stage; nothing is assumed about any of them, so every statement holds bit-for-bit
     for IEEE binary32 frames and for every sound / effect / tween / pause history. *)
-From Coq Require Import List Arith Bool PeanoNat Reals.
+From Coq Require Import List Arith Bool PeanoNat Reals ZArith QArith.
+From KV Require Import Base.Outcome Base.Num C19.Model C06.Model C06.Dur C06.Proofs C06.Proofs2 C03.Model.
 From KV Require Import C02.Model C02.ProofsList C02.ProofsRefine C02.ProofsCor C02.ProofsLog C02.ProofsClosed.
-From KV Require Import C02.ModelOrder C02.ProofsOrder.
+From KV Require Import C02.ModelOrder C02.ProofsOrder C02.ModelCtl C02.ProofsCtl C02.ProofsCtl2.
 From KV Require C02.Examples.
 Import ListNotations.
+Close Scope Q_scope.
 
 (** The buffer-level `Mixer::process` (shared temp buffers, slices, zip-truncated `+=`,
     `fill(ZERO)`, send `input` buffers, arena order) on any state whose buffers are clean computes
@@ -166,3 +168,341 @@ Theorem pickup_against_the_order :
   let s := orun 6 (fun _ _ => true) [A_drain; A_drain; A_drain; A_drain; G_add late_clock; G_add early_mod; A_drain; A_drain] in
   o_pc s = 6 /\ live s (k_mod, 2) = true /\ live s (k_clock, 1) = false.
 Proof. exact against_the_order_l. Qed.
+
+(** * The control part of a track, concretely (C02/ModelCtl.v: the top of `Track::process`, `read_commands`).
+    The guard.  After the chunk's update of a sub-track's state manager (with the "tracks have no stopped
+    state" repair) the track does not advance EXACTLY when its state is Paused or WaitingToResume — and a
+    track is never Stopped.  With [nonadvancing_track_frozen_ctl] below: a track that is waiting to resume
+    contributes exact silence, like a paused one.  Any number type: bit for bit for IEEE. *)
+Theorem ctl_guard_exact :
+  forall (T : Type) (NT : Num T) (ND : NumDur T) (powf : T -> T -> T) (V : Type)
+         (interp : V -> V -> T -> V) (silence identity : V) (F G : Type) (amp : V -> G) 
+         (gmul : G -> G -> G) (dt : T) (i : info T) (cs : tcs T V) (n : nat) (cs' : tcs T V) 
+         (c : tctl F G) (m : psm T V),
+       k_psm cs = Some m ->
+       ps m <> Stopped ->
+       ctl_step_o powf V interp silence identity F G amp gmul dt i cs n = Ok (cs', c) ->
+       exists m' : psm T V,
+         k_psm cs' = Some m' /\
+         ps m' <> Stopped /\
+         (c_adv c = false <->
+          ps m' = Paused \/ (exists (st : stime T) (tw : tween T), ps m' = WaitingToResume st tw)).
+Proof. exact @ctl_guard_exact_l. Qed.
+
+(** the main track and send tracks have no state manager: they always advance *)
+Theorem ctl_main_and_send_tracks_always_advance :
+  forall (T : Type) (NT : Num T) (ND : NumDur T) (powf : T -> T -> T) (V : Type)
+         (interp : V -> V -> T -> V) (silence identity : V) (F G : Type) (amp : V -> G) 
+         (gmul : G -> G -> G) (dt : T) (i : info T) (cs : tcs T V) (n : nat) (cs' : tcs T V) 
+         (c : tctl F G),
+       k_psm cs = None ->
+       ctl_step_o powf V interp silence identity F G amp gmul dt i cs n = Ok (cs', c) ->
+       c_adv c = true /\ k_psm cs' = None.
+Proof. exact @ctl_no_psm_advances. Qed.
+
+(** The track volume and EVERY route volume are updated by every chunk, in every pause state: the
+    updates stand above the guard. *)
+Theorem ctl_volumes_tick_in_every_state :
+  forall (T : Type) (NT : Num T) (ND : NumDur T) (powf : T -> T -> T) (V : Type)
+         (interp : V -> V -> T -> V) (silence identity : V) (F G : Type) (amp : V -> G) 
+         (gmul : G -> G -> G) (dt : T) (i : info T) (cs : tcs T V) (n : nat) (cs' : tcs T V) 
+         (c : tctl F G),
+       ctl_step_o powf V interp silence identity F G amp gmul dt i cs n = Ok (cs', c) ->
+       (exists f : bool, param_update powf V interp (k_vol cs) (dtl dt n) i = Ok (k_vol cs', f)) /\
+       routes_update powf V interp (k_routes cs) (dtl dt n) i = Ok (k_routes cs') /\ k_id cs' = k_id cs.
+Proof. exact @ctl_volumes_tick_l. Qed.
+
+(** what the chunk is rendered with: per frame `volume.interpolated((k+1)/n).as_amplitude() *
+    fade.interpolated((k+1)/n).as_amplitude()`, per chunk `route.volume.value().as_amplitude()`; no
+    spatialisation *)
+Theorem ctl_gain_formula :
+  forall (T : Type) (NT : Num T) (ND : NumDur T) (powf : T -> T -> T) (V : Type)
+         (interp : V -> V -> T -> V) (silence identity : V) (F G : Type) (amp : V -> G) 
+         (gmul : G -> G -> G) (dt : T) (i : info T) (cs : tcs T V) (n : nat) (cs' : tcs T V) 
+         (c : tctl F G) (m' : psm T V),
+       ctl_step_o powf V interp silence identity F G amp gmul dt i cs n = Ok (cs', c) ->
+       k_psm cs' = Some m' ->
+       (forall k : nat,
+        c_gain c k =
+        gmul (amp (param_interpolated V interp (k_vol cs') (amount_of n k)))
+          (amp (param_interpolated V interp (fade m') (amount_of n k)))) /\
+       (forall r : nat,
+        c_rgain c r = nth r (map (fun p : param T V => amp (p_raw p)) (k_routes cs')) (amp silence)) /\
+       c_adv c = is_advancing (ps m') /\ (forall (k : nat) (x : F), c_spat c k x = x).
+Proof. exact @ctl_gain_formula_l. Qed.
+
+Theorem ctl_gain_formula_main :
+  forall (T : Type) (NT : Num T) (ND : NumDur T) (powf : T -> T -> T) (V : Type)
+         (interp : V -> V -> T -> V) (silence identity : V) (F G : Type) (amp : V -> G) 
+         (gmul : G -> G -> G) (dt : T) (i : info T) (cs : tcs T V) (n : nat) (cs' : tcs T V) 
+         (c : tctl F G),
+       ctl_step_o powf V interp silence identity F G amp gmul dt i cs n = Ok (cs', c) ->
+       k_psm cs = None ->
+       forall k : nat, c_gain c k = amp (param_interpolated V interp (k_vol cs') (amount_of n k)).
+Proof. exact @ctl_gain_formula_main_l. Qed.
+
+(** For ALL histories of the two threads (handle writes at any time, callback starts, chunks): the track's
+    volume parameter sees exactly the last volume command written before each callback start, applied at
+    that start, and one update per chunk — whatever pause / resume / resume_at / route commands do. *)
+Theorem volume_follows_history :
+  forall (T : Type) (NT : Num T) (ND : NumDur T) (powf : T -> T -> T) (V : Type)
+         (interp : V -> V -> T -> V) (silence identity : V) (F G : Type) (amp : V -> G) 
+         (gmul : G -> G -> G) (dt : T) (es : list (mev T V)) (b b' : tcs T V * tcmd T V)
+         (outs : list (tctl F G)),
+       mrun powf V interp silence identity F G amp gmul dt b es = Ok (b', outs) ->
+       param_run powf V interp (k_vol (fst b)) (vol_view V dt (m_vol (snd b)) es) = Ok (k_vol (fst b')).
+Proof. exact @volume_follows_history_l. Qed.
+
+(** ... and so does the volume parameter of every send route *)
+Theorem route_follows_history :
+  forall (T : Type) (NT : Num T) (ND : NumDur T) (powf : T -> T -> T) (V : Type)
+         (interp : V -> V -> T -> V) (silence identity : V) (F G : Type) (amp : V -> G) 
+         (gmul : G -> G -> G) (dt : T) (k : nat) (es : list (mev T V)) (b b' : tcs T V * tcmd T V)
+         (outs : list (tctl F G)) (p : param T V),
+       boxed V b ->
+       mrun powf V interp silence identity F G amp gmul dt b es = Ok (b', outs) ->
+       nth_error (k_routes (fst b)) k = Some p ->
+       exists p' : param T V,
+         nth_error (k_routes (fst b')) k = Some p' /\
+         param_run powf V interp p (route_view V dt k (nth k (m_routes (snd b)) None) es) = Ok p'.
+Proof. exact @route_follows_history_l. Qed.
+
+(** Commands are read by `on_start_processing` only: whatever the handle writes DURING a callback (between
+    any two chunks), every chunk of that callback is rendered exactly as if nothing had been written; the
+    writes are all in the mailbox afterwards (one slot per kind, the last write in each), for the next
+    callback start to apply. *)
+Theorem mid_callback_writes_wait :
+  forall (T : Type) (NT : Num T) (ND : NumDur T) (powf : T -> T -> T) (V : Type)
+         (interp : V -> V -> T -> V) (silence identity : V) (F G : Type) (amp : V -> G) 
+         (gmul : G -> G -> G) (dt : T) (es : list (mev T V)) (b b' : tcs T V * tcmd T V)
+         (outs : list (tctl F G)),
+       forallb (fun e : mev T V => negb (is_start e)) es = true ->
+       mrun powf V interp silence identity F G amp gmul dt b es = Ok (b', outs) ->
+       mrun powf V interp silence identity F G amp gmul dt b
+         (filter (fun e : mev T V => negb (is_write e)) es) = Ok (fst b', snd b, outs) /\
+       snd b' = fold_left write (writes_of V es) (snd b).
+Proof. exact @mid_callback_writes_wait_l. Qed.
+
+(** one chunk of a track waiting to resume: volumes tick, the start time is counted down; the track stays
+    WaitingToResume (not advancing) until the start time resolves, resumes in the chunk in which it does
+    (advancing, fading in from the current fade value), and is left Paused if its clock is gone *)
+Theorem waiting_step :
+  forall (T : Type) (NT : Num T) (ND : NumDur T) (powf : T -> T -> T) (V : Type)
+         (interp : V -> V -> T -> V) (silence identity : V) (F G : Type) (amp : V -> G) 
+         (gmul : G -> G -> G) (dt : T) (i : info T) (cs : tcs T V) (n : nat) (m : psm T V) 
+         (st : stime T) (tw : tween T) (vol : param T V) (fv : bool) (routes : list (param T V))
+         (f : param T V) (fin : bool) (st' : stime T) (never : bool),
+       k_psm cs = Some m ->
+       ps m = WaitingToResume st tw ->
+       param_update powf V interp (k_vol cs) (dtl dt n) i = Ok (vol, fv) ->
+       routes_update powf V interp (k_routes cs) (dtl dt n) i = Ok routes ->
+       param_update powf V interp (fade m) (dtl dt n) i = Ok (f, fin) ->
+       stime_update st (dtl dt n) i = Ok (st', never) ->
+       exists c : tctl F G,
+         ctl_step_o powf V interp silence identity F G amp gmul dt i cs n =
+         Ok
+           ({|
+              k_id := k_id cs;
+              k_vol := vol;
+              k_routes := routes;
+              k_psm :=
+                Some
+                  (if never
+                   then {| ps := Paused; fade := f |}
+                   else
+                    if is_immediate st'
+                    then {| ps := Resuming; fade := param_set f (Fixed identity) tw |}
+                    else {| ps := WaitingToResume st' tw; fade := f |})
+            |}, c) /\ c_adv c = negb never && is_immediate st'.
+Proof. exact @waiting_step_l. Qed.
+
+(** The buffer-level `Track::process` of C02/Model.v instantiated with this control (any frame arithmetic,
+    sounds, effects): a track that is Paused or WaitingToResume after the chunk's update returns exact
+    zeros, feeds no send, and nothing beneath it is touched — sub-tracks, sounds, effects, scratch buffer;
+    only its own control state moves, volume and route parameters included. *)
+Theorem nonadvancing_track_frozen_ctl :
+  forall (T : Type) (NT : Num T) (ND : NumDur T) (powf : T -> T -> T) (V : Type)
+         (interp : V -> V -> T -> V) (silence identity : V) (F G : Type) (amp : V -> G) 
+         (gmul : G -> G -> G) (dt : T) (SS ES TO : Type) (zero : F) (add : F -> F -> F) 
+         (scale : F -> G -> F) (snd_proc : info T -> SS -> nat -> SS * list F)
+         (fx_proc : info T -> ES -> list F -> ES * list F) (res : info T -> nat -> info T)
+         (outf : nat -> F -> list TO) (env : info T) (cs cs' : tcs T V) (c : tctl F G) 
+         (m m' : psm T V)
+         (subs : list
+                   (track
+                      (ctl_ops powf V interp silence identity F G amp gmul dt SS ES TO zero add scale
+                         snd_proc fx_proc res outf)))
+         (snds : list
+                   (tSS
+                      (ctl_ops powf V interp silence identity F G amp gmul dt SS ES TO zero add scale
+                         snd_proc fx_proc res outf)))
+         (fx : list
+                 (tES
+                    (ctl_ops powf V interp silence identity F G amp gmul dt SS ES TO zero add scale snd_proc
+                       fx_proc res outf))) (routes : list nat)
+         (temp : list
+                   (tF
+                      (ctl_ops powf V interp silence identity F G amp gmul dt SS ES TO zero add scale
+                         snd_proc fx_proc res outf))) (out : list F)
+         (S : sends_t
+                (ctl_ops powf V interp silence identity F G amp gmul dt SS ES TO zero add scale snd_proc
+                   fx_proc res outf)),
+       k_psm cs = Some m ->
+       ps m <> Stopped ->
+       ctl_step_o powf V interp silence identity F G amp gmul dt env cs (length out) = Ok (cs', c) ->
+       k_psm cs' = Some m' ->
+       ps m' = Paused \/ (exists (st : stime T) (tw : tween T), ps m' = WaitingToResume st tw) ->
+       track_process
+         (ctl_ops powf V interp silence identity F G amp gmul dt SS ES TO zero add scale snd_proc fx_proc res
+            outf) env (@Trk (ctl_ops powf V interp silence identity F G amp gmul dt SS ES TO zero add scale snd_proc fx_proc res outf) (Ok cs) subs snds fx routes temp) out S =
+       (@Trk (ctl_ops powf V interp silence identity F G amp gmul dt SS ES TO zero add scale snd_proc fx_proc res outf) (Ok cs') subs snds fx routes temp,
+        zeros
+          (ctl_ops powf V interp silence identity F G amp gmul dt SS ES TO zero add scale snd_proc fx_proc
+             res outf) (length out), S).
+Proof. exact @nonadvancing_track_frozen_l. Qed.
+
+(** ... and in every other state it renders *)
+Theorem advancing_track_renders :
+  forall (T : Type) (NT : Num T) (ND : NumDur T) (powf : T -> T -> T) (V : Type)
+         (interp : V -> V -> T -> V) (silence identity : V) (F G : Type) (amp : V -> G) 
+         (gmul : G -> G -> G) (dt : T) (env : info T) (cs cs' : tcs T V) (c : tctl F G) 
+         (m m' : psm T V),
+       k_psm cs = Some m ->
+       ps m <> Stopped ->
+       ctl_step_o powf V interp silence identity F G amp gmul dt env cs 1 = Ok (cs', c) ->
+       k_psm cs' = Some m' ->
+       ps m' = Playing \/ ps m' = Pausing \/ ps m' = Resuming \/ ps m' = Stopping -> c_adv c = true.
+Proof. exact @advancing_track_renders_l. Qed.
+
+(** Exact time.  A volume commanded at a callback start follows the tween law (C06 [tween_law]) over the
+    chunks that follow IN WHATEVER STATE the track is — in particular a tween whose duration has elapsed
+    while the track was paused has ended exactly on its target, so the commanded volume is in force from
+    the first frame after the resume. *)
+Theorem volume_commanded_in_any_state :
+  forall (powf : Q -> Q -> Q) (silence identity : Q) (F G : Type) (amp : Q -> G) 
+         (gmul : G -> G -> G) (dt : Q) (b b' : tcs Q Q * tcmd Q Q) (outs : list (tctl F G)) 
+         (tg : Q) (tw : tween Q) (l : list (nat * info Q)),
+       not_delayed (tw_start tw) ->
+       tw_dur tw <> 0%Z ->
+       l <> [] ->
+       mrun powf Q lerp silence identity F G amp gmul dt b
+         (MWrite (WVol (Fixed tg) tw) :: MStart :: chunk_events l) = Ok (b', outs) ->
+       let D := ns_to_secs_Q (tw_dur tw) in
+       if completes (tw_start tw) D 0 (chunk_calls dt l)
+       then p_state (k_vol (fst b')) = Idle (Fixed tg) /\ p_raw (k_vol (fst b')) = tg
+       else
+        p_raw (k_vol (fst b')) =
+        the_law powf (p_raw (k_vol (fst b))) tg (tw_easing tw) D (elapsed (tw_start tw) 0 (chunk_calls dt l)).
+Proof. exact @volume_commanded_in_any_state_l. Qed.
+
+Theorem route_commanded_in_any_state :
+  forall (powf : Q -> Q -> Q) (silence identity : Q) (F G : Type) (amp : Q -> G) 
+         (gmul : G -> G -> G) (dt : Q) (b b' : tcs Q Q * tcmd Q Q) (outs : list (tctl F G)) 
+         (k : nat) (p : param Q Q) (tg : Q) (tw : tween Q) (l : list (nat * info Q)),
+       boxed Q b ->
+       nth_error (k_routes (fst b)) k = Some p ->
+       not_delayed (tw_start tw) ->
+       tw_dur tw <> 0%Z ->
+       l <> [] ->
+       mrun powf Q lerp silence identity F G amp gmul dt b
+         (MWrite (WRoute k (Fixed tg) tw) :: MStart :: chunk_events l) = Ok (b', outs) ->
+       let D := ns_to_secs_Q (tw_dur tw) in
+       exists p' : param Q Q,
+         nth_error (k_routes (fst b')) k = Some p' /\
+         (if completes (tw_start tw) D 0 (chunk_calls dt l)
+          then p_state p' = Idle (Fixed tg) /\ p_raw p' = tg
+          else
+           p_raw p' = the_law powf (p_raw p) tg (tw_easing tw) D (elapsed (tw_start tw) 0 (chunk_calls dt l))).
+Proof. exact @route_commanded_in_any_state_l. Qed.
+
+(** * Branches.  `Track::should_be_removed` holds exactly when nothing at or below the track has a reason to
+    stay: a live handle, a persisting track with a sound (playing or queued), a queued sub-track. *)
+Theorem removable_iff_not_anchored :
+  forall t : ktree, removable t = negb (anchored t).
+Proof. exact @removable_iff_not_anchored_l. Qed.
+
+(** a track with such a descendant ANYWHERE below it, at any depth, is not removable *)
+Theorem live_descendant_keeps_branch :
+  forall t u : ktree, on_branch t u -> anchored_here u = true -> removable t = false.
+Proof. exact @live_descendant_keeps_branch_l. Qed.
+
+(** ... and after `Mixer::on_start_processing` the whole branch down to that descendant is still in the
+    tree, with all the descendant's sounds (nothing is lost) *)
+Theorem live_descendant_survives_pickup :
+  forall (tops : list ktree) (t u : ktree),
+       In t tops ->
+       on_branch t u ->
+       anchored_here u = true ->
+       exists t' u' : ktree,
+         In t' (k_mixer_on_start removable tops) /\
+         on_branch t' u' /\ sounds_here u' = sounds_here u /\ flags_of u' = flags_of u.
+Proof. exact @live_descendant_survives_mixer_l. Qed.
+
+(** a forest in which nothing has a reason to stay is removed entirely *)
+Theorem unanchored_branch_removed :
+  forall tops : list ktree,
+       forallb (fun t : ktree => negb (anchored t)) tops = true -> k_mixer_on_start removable tops = [].
+Proof. exact @unanchored_branch_removed_l. Qed.
+
+(** * Examples (the hypotheses are met) and counter-models of the seeded readings, exact arithmetic.
+    pause; resume_at in 20 ms; chunks of 8 ms: not advancing, not advancing (WaitingToResume, code 3), not
+    advancing, advancing from the chunk in which 20 ms have passed, Playing at the end *)
+Theorem waiting_example :
+  advs (mrunQ0 b0 ex_wait) = [false; false; false; true; true] /\
+       state_of (mrunQ0 b0 ex_wait) = 0%Z /\ state_of (mrunQ0 b0 (firstn 7 ex_wait)) = 3%Z.
+Proof. exact @waiting_example_l. Qed.
+
+(** the guard `== Paused` is not the guard: a resume_at that arrives half-way through a fade-out leaves the
+    track WaitingToResume at half gain; the real guard stops it, that one renders it *)
+Theorem paused_only_guard_refuted :
+  code_of cs_leak = 3%Z /\
+       adv_of (stepQ no_info cs_leak 8) = Some false /\
+       adv_of (ctl_step_paused_only pw0 Q lerp (-60)%Q 0%Q unit Q ampQ gmulQ dtQ no_info cs_leak 8) =
+       Some true /\
+       ~ (gain0_of (ctl_step_paused_only pw0 Q lerp (-60) 0 unit Q ampQ gmulQ dtQ no_info cs_leak 8) == 0)%Q.
+Proof. exact @paused_only_guard_refuted_l. Qed.
+
+(** volumes ticked below the guard are not these volumes: muted with a 16 ms tween while paused, resumed
+    24 ms later: gain 0 from the first frame here, the old volume is heard there *)
+Theorem late_volumes_refuted :
+  skipn 4 (gains (mrunQ0 b0 ex_mute_paused)) = [0%Q; 0%Q] /\
+       advs (mrunQ0 b0 ex_mute_paused) = [false; false; false; false; true; true] /\
+       advs
+         (mrun_with (ctl_step_late_volumes pw0 Q lerp (-60)%Q 0%Q unit Q ampQ gmulQ dtQ) b0 ex_mute_paused) =
+       [false; false; false; false; true; true] /\
+       ~
+       (nth 5
+          (gains
+             (mrun_with (ctl_step_late_volumes pw0 Q lerp (-60) 0 unit Q ampQ gmulQ dtQ) b0 ex_mute_paused))
+          0 == 0)%Q.
+Proof. exact @late_volumes_refuted_l. Qed.
+
+Theorem mute_paused_example :
+  completes Immediate (ns_to_secs_Q 16000000) 0
+         (chunk_calls dtQ [(8, no_info); (8, no_info); (8, no_info)]) = true.
+Proof. exact @mute_paused_example_l. Qed.
+
+(** route commands polled per chunk are not these commands: a route muted between the first and second
+    chunk of a callback stays open for the whole callback here (closed from the next), closes at once there *)
+Theorem per_chunk_reading_refuted :
+  rgains (mrunQ0 b0 ex_mid) = [1%Q; 1%Q; 1%Q] /\
+       rgains (mrun_per_chunk pw0 Q lerp (-60)%Q 0%Q unit Q ampQ gmulQ dtQ b0 ex_mid) = [1%Q; 0%Q; 0%Q] /\
+       rgains (mrunQ0 b0 (ex_mid ++ [MStart; chunk 4])) = [1%Q; 1%Q; 1%Q; 0%Q].
+Proof. exact @per_chunk_reading_refuted_l. Qed.
+
+(** the shallow liveness test is not this test: parent and child handles dropped, grandchild alive with a
+    sound: kept here (1 sound still rendered), torn out there *)
+Theorem shallow_test_refuted :
+  on_branch k_parent k_grand /\
+       anchored_here k_grand = true /\
+       removable k_parent = false /\
+       list_sum (map k_sounds (k_mixer_on_start removable [k_parent])) = 1 /\
+       removable_shallow k_parent = true /\ k_mixer_on_start removable_shallow [k_parent] = [].
+Proof. exact @shallow_test_refuted_l. Qed.
+
+Theorem persisting_child_example :
+  let c := KT 2 true true 0 1 [] [] in
+       anchored_here c = true /\
+       removable (KT 1 true false 0 0 [] [c]) = false /\
+       removable_shallow (KT 1 true false 0 0 [] [c]) = true.
+Proof. exact @persisting_child_example_l. Qed.
